@@ -66,17 +66,21 @@ class GroundedPrecondition:
         lifted_conditions: Precondition,
         grounded_conditions: Precondition,
         parameters_map: Dict[str, str],
+        action: Optional[Action] = None,
     ) -> None:
         """Ground the preconditions of the action.
 
         :param lifted_conditions: the lifted preconditions of the action.
         :param grounded_conditions: the grounded preconditions of the action.
         :param parameters_map: the mapping between the lifted and the grounded objects.
+        :param action: the action whose signature types the parameters (the action itself unless a quantified
+            parameter extends the signature).
         """
+        action = action if action is not None else self.action
         for precondition in lifted_conditions.operands:
             if isinstance(precondition, Predicate):
                 grounded_predicate = ground_predicate(
-                    precondition, parameters_map, self.domain, self.action
+                    precondition, parameters_map, self.domain, action
                 )
                 grounded_conditions.add_condition(grounded_predicate)
 
@@ -89,8 +93,10 @@ class GroundedPrecondition:
 
             elif isinstance(precondition, UniversalPrecondition):
                 self._parameter_map = parameters_map
-                self.logger.debug("There is no need to ground universal preconditions.")
-                continue
+                self.logger.debug(
+                    "Universal preconditions are grounded per object when they are evaluated."
+                )
+                grounded_conditions.operands.add(precondition)
 
             elif isinstance(precondition, Precondition):
                 grounded_condition = Precondition(precondition.binary_operator)
@@ -100,7 +106,8 @@ class GroundedPrecondition:
                 grounded_condition.inequality_preconditions = self._ground_equality_objects(
                     precondition.inequality_preconditions, parameters_map
                 )
-                self._ground(precondition, grounded_condition, parameters_map)
+                self._ground(precondition, grounded_condition, parameters_map, action)
+                grounded_conditions.operands.add(grounded_condition)
 
             else:
                 raise ValueError(
@@ -180,36 +187,6 @@ class GroundedPrecondition:
         )
         return is_applicable
 
-    def _ground_universal_condition(
-        self, condition: UniversalPrecondition, extended_parameter_map: Dict[str, str]
-    ) -> Precondition:
-        """Ground the universal precondition.
-        
-        :param condition: the universal precondition to ground.
-        :param extended_parameter_map: the mapping between the lifted and the grounded objects with the quantified
-            object as well.
-        :return: the grounded condition for a single object.
-        """
-        grounded_preconditions = Precondition(condition.binary_operator)
-        tmp_action = Action()
-        tmp_action.signature = self.action.signature
-        tmp_action.signature[condition.quantified_parameter] = condition.quantified_type
-        for sub_condition in condition.operands:
-            if isinstance(sub_condition, Predicate):
-                grounded_predicate = ground_predicate(
-                    sub_condition, extended_parameter_map, self.domain, tmp_action
-                )
-                grounded_preconditions.add_condition(grounded_predicate)
-
-            elif isinstance(sub_condition, NumericalExpressionTree):
-                grounded_preconditions.add_condition(
-                    ground_numeric_calculation_tree(
-                        sub_condition, extended_parameter_map, self.domain
-                    )
-                )
-
-        return grounded_preconditions
-
     def _validate_universal_precondition(
         self,
         condition: UniversalPrecondition,
@@ -220,59 +197,49 @@ class GroundedPrecondition:
 
         :param condition: the universal precondition to validate.
         :param state: the state to validate the precondition in.
-        :return: whether the universal precondition is applicable in the given state.
+        :param problem_objects: the objects of the problem that the quantifier ranges over.
+        :return: whether the quantified condition holds for every object of the quantified type.
         """
-        if not problem_objects:
-            raise ValueError(
-                "The objects of the problem should be provided for universal preconditions."
+        if problem_objects is None:
+            self.logger.warning(
+                "The objects of the problem were not provided, quantifying over the domain's constants only."
             )
+            problem_objects = {}
 
         self.logger.debug(
             "Validating if the universal precondition is applicable in the state"
         )
-        is_applicable = self._validate_equality_holds(condition)
-        self.logger.debug("We assume that universal preconditions are not nested.")
-        extended_parameter_map = {**self._parameter_map}
-        for obj_name, obj in problem_objects.items():
-            if obj.type.name != condition.quantified_type.name:
+        # The quantified parameter extends a private copy of the action's signature.
+        extended_action = Action()
+        extended_action.signature = {
+            **self.action.signature,
+            condition.quantified_parameter: condition.quantified_type,
+        }
+        quantification_objects = {**problem_objects, **self.domain.constants}
+        for obj_name, obj in quantification_objects.items():
+            if not obj.type.is_sub_type(condition.quantified_type):
                 continue
 
-            extended_parameter_map[condition.quantified_parameter] = obj_name
-            grounded_precondition = self._ground_universal_condition(
-                condition, extended_parameter_map
+            extended_parameter_map = {
+                **self._parameter_map,
+                condition.quantified_parameter: obj_name,
+            }
+            grounded_condition = Precondition(condition.binary_operator)
+            grounded_condition.equality_preconditions = self._ground_equality_objects(
+                condition.equality_preconditions, extended_parameter_map
             )
-            for sub_condition in grounded_precondition.operands:
-                if isinstance(sub_condition, GroundedPredicate):
-                    is_applicable = BinaryOperator[
-                        grounded_precondition.binary_operator
-                    ](
-                        is_applicable,
-                        self._validate_predicates_hold(
-                            sub_condition, is_applicable, condition, state
-                        ),
-                    )
+            grounded_condition.inequality_preconditions = self._ground_equality_objects(
+                condition.inequality_preconditions, extended_parameter_map
+            )
+            self._ground(
+                condition, grounded_condition, extended_parameter_map, extended_action
+            )
+            if not self._is_condition_applicable(
+                grounded_condition, state, problem_objects
+            ):
+                return False
 
-                elif isinstance(sub_condition, NumericalExpressionTree):
-                    is_applicable = BinaryOperator[
-                        grounded_precondition.binary_operator
-                    ](
-                        is_applicable,
-                        self._validate_numeric_expression_hold(
-                            sub_condition, is_applicable, condition, state
-                        ),
-                    )
-
-                elif isinstance(sub_condition, Precondition):
-                    is_applicable = BinaryOperator[
-                        grounded_precondition.binary_operator
-                    ](
-                        is_applicable,
-                        self._is_condition_applicable(
-                            sub_condition, state, problem_objects
-                        ),
-                    )
-
-        return is_applicable
+        return True
 
     def _is_condition_applicable(
         self,
@@ -287,39 +254,41 @@ class GroundedPrecondition:
         :param problem_objects: the objects of the problem to use for universal preconditions.
         :return: whether the condition is applicable in the given state.
         """
-        is_applicable = self._validate_equality_holds(preconditions)
+        parts = [obj1 == obj2 for obj1, obj2 in preconditions.equality_preconditions]
+        parts.extend(
+            [obj1 != obj2 for obj1, obj2 in preconditions.inequality_preconditions]
+        )
         for condition in preconditions.operands:
             if isinstance(condition, GroundedPredicate):
-                is_applicable = BinaryOperator[preconditions.binary_operator](
-                    is_applicable,
+                parts.append(
                     self._validate_predicates_hold(
-                        condition, is_applicable, preconditions, state
-                    ),
+                        condition, True, Precondition("and"), state
+                    )
                 )
 
             elif isinstance(condition, NumericalExpressionTree):
-                is_applicable = BinaryOperator[preconditions.binary_operator](
-                    is_applicable,
+                parts.append(
                     self._validate_numeric_expression_hold(
-                        condition, is_applicable, preconditions, state
-                    ),
-                )
-
-            elif isinstance(condition, Precondition):
-                is_applicable = BinaryOperator[preconditions.binary_operator](
-                    is_applicable, self._is_condition_applicable(condition, state)
+                        condition, True, Precondition("and"), state
+                    )
                 )
 
             elif isinstance(condition, UniversalPrecondition):
-                is_applicable = self._validate_universal_precondition(
-                    condition, state, problem_objects
+                parts.append(
+                    self._validate_universal_precondition(
+                        condition, state, problem_objects
+                    )
                 )
-                continue
+
+            elif isinstance(condition, Precondition):
+                parts.append(
+                    self._is_condition_applicable(condition, state, problem_objects)
+                )
 
             else:
                 raise ValueError(f"Unknown precondition type: {type(condition)}")
 
-        return is_applicable
+        return all(parts) if preconditions.binary_operator == "and" else any(parts)
 
     def ground_preconditions(self, parameters_map: Dict[str, str]) -> None:
         """Ground the preconditions of the action.
